@@ -24,7 +24,7 @@ static const char *z_opname(int k)
 
 enum { CF_ES, CF_JUNK, CF_RAND, CF_MAXN };
 
-#define MAXN 4200
+#define MAXN 70100
 #define MAXES 24
 
 static unsigned char *arr, *scratch, *ref;      /* ref: harness copy (real heap) */
@@ -156,7 +156,7 @@ static void z_exec(const plan_t *p)
             }
             memcpy(ref, arr, n * es);
             sorted = n <= 1;
-            if (n >= 256) PROBE("large_array"); if (alpha <= 3) PROBE("few_distinct_values");
+            if (n >= 256) PROBE("large_array"); if (alpha <= 3) PROBE("few_distinct_values"); if (n > 65536) PROBE("array_above_2^16");
             EVT("fill", pattern, n, alpha);
             break;
         }
@@ -165,6 +165,8 @@ static void z_exec(const plan_t *p)
             static const char *names[] = { "quick", "quick-random", "quick-median3", "heap", "selector-4", "selector-7", "selector--1", "selector-100" };
             int ai = (int)(o->a[0] % 8), custom_swap = (int)(o->a[1] & 1);
             if (arr == NULL) { EVT("skip", 0, 0, 0); break; }
+            /* first-element pivot on (nearly) sorted input is quadratic by design: not on very large arrays */
+            if (n > 8000 && (ai == 0) && sorted) ai = 3;
             algoname = names[ai]; g_cur_ctx = algoname;
             cmpcap = 64 * (uint64_t)(n + 16) * (uint64_t)(n + 16);
             memcpy(ref, arr, n * es);
@@ -229,17 +231,19 @@ static void z_exec(const plan_t *p)
 static void z_gen(prng_t *r, int mode, plan_t *p)
 {
     static const int sizes[] = { 1, 2, 4, 8, 1, 2, 4, 8, 3, 5, 16, 24 };
-    int large = prng_chance(r, 1, 20), small = !large && prng_chance(r, 1, 4);
-    int rounds = 1 + (int)prng_below(r, 3), q, j;
+    int huge = prng_chance(r, 1, 400);
+    int large = !huge && prng_chance(r, 1, 20), small = !large && !huge && prng_chance(r, 1, 4);
+    int rounds = huge ? 1 : 1 + (int)prng_below(r, 3), q, j;
     (void)mode;
     p->cfg[CF_ES] = (uint64_t)sizes[prng_below(r, sizeof sizes / sizeof sizes[0])];
     p->cfg[CF_JUNK] = 1 + prng_below(r, 254);
     p->cfg[CF_RAND] = prng_below(r, 1000);
-    p->cfg[CF_MAXN] = large ? 4096 : small ? 8 : 64;
+    p->cfg[CF_MAXN] = huge ? 70000 : large ? 4096 : small ? 8 : 64;
     for (q = 0; q < rounds; q++) {
         op_t *o = plan_add(p, Z_FILL);
         int nf = (int)prng_below(r, 4), ns = 1 + (int)prng_below(r, 2);
-        o->a[0] = prng_below(r, 8); o->a[1] = prng_next(r) >> 8; o->a[2] = prng_next(r) >> 8; o->a[3] = prng_next(r);
+        o->a[0] = huge ? prng_below(r, 2) : prng_below(r, 8); o->a[1] = huge ? 65000 + prng_below(r, 5000) : prng_next(r) >> 8; o->a[2] = prng_next(r) >> 8; o->a[3] = prng_next(r);
+        if (huge) o->a[2] = 7 + 5 * prng_below(r, 500);      /* many distinct values */
         for (j = 0; j < nf; j++) { op_t *f = plan_add(p, Z_FIND); f->a[0] = prng_next(r) >> 8; f->a[1] = prng_below(r, 2); }
         if (prng_chance(r, 1, 3)) { op_t *v = plan_add(p, Z_REVERSE); v->a[0] = prng_below(r, 2); }
         for (j = 0; j < ns; j++) {
